@@ -22,6 +22,11 @@ pub enum DiskFaultKind {
     /// byte `k` is replaced by 0xFF (never valid UTF-8)
     InvalidUtf8(usize),
     Empty,
+    /// trailing bytes after the intact content (a second document, junk, a stray bracket)
+    Append(Vec<u8>),
+    /// torn rewrite: new content written over the old one without truncating the file, so the tail
+    /// of the old (longer) content survives behind the new one
+    TornOverwrite(Vec<u8>),
 }
 
 #[derive(Clone, Debug, PartialEq, Eq)]
@@ -71,6 +76,17 @@ fn apply(kind: &DiskFaultKind, mut data: Vec<u8>) -> io::Result<Vec<u8>> {
             Ok(data)
         }
         Empty => Ok(vec![]),
+        Append(tail) => {
+            data.extend_from_slice(tail);
+            Ok(data)
+        }
+        TornOverwrite(new) => {
+            let mut out = new.clone();
+            if data.len() > new.len() {
+                out.extend_from_slice(&data[new.len()..]);
+            }
+            Ok(out)
+        }
     }
 }
 
